@@ -246,6 +246,34 @@ type MsgSpec struct {
 	Preform  [][2]string `json:"preform,omitempty"` // preformatted generic headers
 	Boundary string      `json:"boundary,omitempty"`
 	NoMsg    bool        `json:"noMsg,omitempty"` // a nil *Msg in the batch
+	// Middlewares: the chain of message middlewares, by type: "reset" (sets the Subject to the
+	// spec's subject), "tag" (appends " [tagged]" to the Subject), "xhdr" (sets X-Middleware).
+	// The chains used are idempotent as a whole, each middleware alone need not be.
+	Middlewares []string `json:"middlewares,omitempty"`
+}
+
+// simMW is a message middleware of the workloads.
+type simMW struct {
+	typ, subject string
+}
+
+func (w simMW) Type() mail.MiddlewareType { return mail.MiddlewareType(w.typ) }
+
+func (w simMW) Handle(m *mail.Msg) *mail.Msg {
+	switch w.typ {
+	case "reset":
+		m.Subject(w.subject)
+	case "tag":
+		cur := m.GetGenHeader(mail.HeaderSubject)
+		s := ""
+		if len(cur) > 0 {
+			s = cur[0]
+		}
+		m.SetGenHeader(mail.HeaderSubject, s+" [tagged]")
+	case "xhdr":
+		m.SetGenHeader("X-Middleware", "seen")
+	}
+	return m
 }
 
 func encOf(s string) mail.Encoding {
@@ -526,6 +554,9 @@ func BuildMsg(s MsgSpec, o BuildOpts) *Built {
 	}
 	if s.Boundary != "" {
 		mopts = append(mopts, mail.WithBoundary(s.Boundary))
+	}
+	for _, t := range s.Middlewares {
+		mopts = append(mopts, mail.WithMiddleware(simMW{typ: t, subject: s.Subject}))
 	}
 	m := mail.NewMsg(mopts...)
 	b.Msg = m
